@@ -375,7 +375,17 @@ def _materialize_standard_op_with_same_as_input_scale(
       tensor_name_to_qsv=tensor_name_to_qsv,
   )
   op_tensor_params.append(input_tensor_params)
-  # Use input quantization params for all output tensors.
+  # Use input quantization params for all output tensors. The outputs are
+  # runtime tensors: they share the parameters but not the quantized values of
+  # a constant input.
+  output_quant_params = input_tensor_params.consumers[0].parameters
+  if (
+      isinstance(output_quant_params, qtyping.UniformQuantParams)
+      and output_quant_params.quantized_data is not None
+  ):
+    output_quant_params = dataclasses.replace(
+        output_quant_params, quantized_data=None
+    )
   _materialize_op_tensors(
       op_tensor_params,
       output_tensors,
@@ -383,7 +393,7 @@ def _materialize_standard_op_with_same_as_input_scale(
       op_info=op_info,
       graph_info=graph_info,
       tensor_name_to_qsv=tensor_name_to_qsv,
-      quant_params=input_tensor_params.consumers[0].parameters,
+      quant_params=output_quant_params,
   )
   # Change output qsv to be the same as input qsv. This is safe since TFL
   # subgraph is acyclic.
